@@ -71,7 +71,7 @@ def make_case(i, rnd, formulas, lexical_mode):
     level = {f["fid"]: rnd.choice(["violation", "violation", "warning", "info"]) for f in fs}
     case = {"id": "c12-%04d" % i, "world": world, "kinds": rnd.sample(range(c01.NKINDS), natoms), "formulas": fs,
             "spell": rnd.randrange(4), "level": level, "lexical": {}, "hasSource": False, "root": "", "additional": {},
-            "rangeStyle": rnd.randrange(6)}
+            "rangeStyle": rnd.randrange(6), "ctxRef": i % 3}
     if lexical_mode:
         names = sorted(world["nodes"])
         for n in names:
